@@ -59,7 +59,7 @@ class World:
         return Router(defaults=RouterDefaults(**kw))
 
     # ---- the scripted actor
-    def scripted_actor(self, router, name: str = "act", queue=None, retry_policy=None, sync: bool = False):
+    def scripted_actor(self, router, name: str = "act", queue=None, retry_policy=None, sync: bool = False, tag=None, worker_tag=None):
         """Registers an actor `name(script: dict, m: MessageDependency)` that follows script['by_attempt'][attempt]
         = {"d": seconds, "do": "ok"|"raise"|"eager", ...} and logs actor_start/actor_end/actor_raise events."""
         from repid import MessageDependency
@@ -86,7 +86,7 @@ class World:
             world.inflight += 1
             world.actor_starts += 1
             world.max_inflight = max(world.max_inflight, world.inflight)
-            log.add(k="actor_start", id=id_, attempt=attempt, actor=name, queue=m.key.queue, topic=m.key.topic, iteration=world.iteration.get(id_, 0),
+            log.add(k="actor_start", id=id_, attempt=attempt, actor=name, queue=m.key.queue, topic=m.key.topic, iteration=world.iteration.get(id_, 0), reg=tag,
                     inflight=world.inflight, params_ts=m.parameters.timestamp.isoformat(),
                     next=m.parameters.delay.next_execution_time.isoformat() if m.parameters.delay.next_execution_time else None)
             try:
@@ -107,19 +107,19 @@ class World:
                         elif pre[0] == "set_exception":
                             m.set_exception(EXC[pre[1]](pre[2]))
                         elif pre[0] == "callback":
-                            tag = pre[1]
+                            cbtag = pre[1]
 
-                            def cb(tag=tag):
+                            def cb(tag=cbtag):
                                 log.add(k="callback", id=id_, tag=tag)
                                 if tag.startswith("raise"):
                                     raise RuntimeError("callback failed")
 
-                            async def acb(tag=tag):
+                            async def acb(tag=cbtag):
                                 log.add(k="callback", id=id_, tag=tag)
                                 if tag.startswith("raise"):
                                     raise RuntimeError("callback failed")
 
-                            m.add_callback(acb if tag.endswith("async") else cb)
+                            m.add_callback(acb if cbtag.endswith("async") else cb)
                     log.add(k="actor_eager", id=id_, attempt=attempt, actor=name, action=st["action"])
                     act = getattr(m, st["action"])
                     if st["action"] in ("retry", "force_retry") and st.get("next") is not None:
